@@ -118,7 +118,7 @@ func setByClass(v reflect.Value, kind, val string, idx int) string {
 	case "number":
 		if val == "full" {
 			v.SetInt(int64(7 + idx))
-			return fmt.Sprintf("I:%d", 7+idx)
+			return fmt.Sprintf("N:%d", 7+idx)
 		}
 		return "Z:+"
 	case "string":
